@@ -217,3 +217,84 @@ fn k_choose_shader_solid() {
     kani::cover!(alpha > 1.);
     kani::cover!(alpha.is_nan());
 }
+
+// ---------------------------------------------------------------- coverage accumulation (C01 #7, #8)
+// @ob id=K.saturated_add props=C01,C07 kind=complete tier=quick timeout=120 fns=saturated_add,coverage_to_partial_alpha
+// @+ desc="saturated_add(a,b) == min(a+b,255) for every a,b with a+b <= 256 (the caller's guarantee); coverage_to_partial_alpha(c) == 16*c for 0 <= c <= 15, no overflow"
+#[kani::proof]
+fn k_saturated_add() {
+    let a: u8 = kani::any();
+    let b: u8 = kani::any();
+    kani::assume(a as u32 + b as u32 <= 256);
+    let s = a as u32 + b as u32;
+    assert!(saturated_add(a, b) as u32 == if s > 255 { 255 } else { s }, "saturated_add = min(a+b,255)");
+    let c: i32 = kani::any();
+    kani::assume(c >= 0 && c <= 15);
+    assert!(coverage_to_partial_alpha(c) as i32 == 16 * c, "partial alpha = cells << 4");
+    kani::cover!(s == 256);
+}
+
+fn cells(k: i32, x1: i32, x2: i32) -> i32 {
+    let lo = x1.max(4 * k);
+    let hi = x2.min(4 * k + 4);
+    if hi > lo { hi - lo } else { 0 }
+}
+
+// @ob id=K.mask_super_blit_span props=C01,C07 kind=bounded:width<=4,rows=2 tier=quick timeout=900 fns=MaskSuperBlitter::blit_span
+// @+ desc="MaskSuperBlitter::blit_span on a w x 2 mask (w symbolic <= 4, symbolic origin, symbolic contents): with row=(y-self.y)/4, sub=(y-self.y)&3, x2'=min(x2,4w): every byte of the whole buffer (slack byte included) becomes old + acc where acc = 16*cells for the first and last touched pixel, 64-(sub==3) for pixels strictly between, 0 elsewhere (cells = quarter-pixel cells of that pixel inside [x1,x2')), saturating at 255 when the sum is 256; no index out of bounds (only the one slack byte past the end may be addressed), no u8 overflow under the caller's guarantee that a pixel never accumulates more than 256"
+#[kani::proof]
+#[kani::unwind(11)]
+fn k_mask_super_blit_span() {
+    let w: i32 = kani::any();
+    kani::assume(w >= 0 && w <= 4);
+    let ox: i32 = kani::any();
+    let oy: i32 = kani::any();
+    kani::assume(ox >= -50 && ox <= 50 && oy >= -50 && oy <= 50);
+    let old: [u8; 9] = kani::any();
+    let n = (w * 2) as usize + 1;
+    let mut b = MaskSuperBlitter { x: ox * 4, y: oy * 4, width: w, buf: old[..n].to_vec() };
+    let y: i32 = kani::any();
+    let x1: i32 = kani::any();
+    let x2: i32 = kani::any();
+    kani::assume(y >= oy * 4 && y < oy * 4 + 8);
+    kani::assume(x1 >= ox * 4 && x1 <= x2 && x2 <= 1000 && x1 - ox * 4 <= 4 * w);
+    let yl = y - oy * 4;
+    let (row, sub) = (yl / 4, yl & 3);
+    let x1l = x1 - ox * 4;
+    let x2c = (x2 - ox * 4).min(4 * w);
+    let (p1, p2) = (x1l >> 2, x2c >> 2);
+    // caller's guarantee: no pixel accumulates past 256 (255 for interior pixels which are added without saturation)
+    let mut k = 0;
+    while k < 5 {
+        if k <= w {
+            let idx = (row * w + k) as usize;
+            if idx < n {
+                let c = cells(k, x1l, x2c);
+                let acc = if k == p1 || k == p2 { 16 * c } else if c > 0 { 64 - (sub == 3) as i32 } else { 0 };
+                kani::assume(old[idx] as i32 + acc <= if k == p1 || k == p2 { 256 } else { 255 });
+            }
+        }
+        k += 1;
+    }
+    b.blit_span(y, x1, x2);
+    assert!(b.buf.len() == n && b.width == w && b.x == ox * 4 && b.y == oy * 4, "frame");
+    let mut i = 0;
+    while i < 9 {
+        if i < n {
+            let r = if w > 0 { i as i32 / w } else { 0 };
+            let kx = i as i32 - row * w; // column relative to the touched row (w = one past the end = slack/next row start)
+            let mut exp = old[i] as i32;
+            if kx >= 0 && kx <= w && (w > 0 || i == 0) {
+                let c = cells(kx, x1l, x2c);
+                let acc = if kx == p1 || kx == p2 { 16 * c } else if c > 0 { 64 - (sub == 3) as i32 } else { 0 };
+                exp = (old[i] as i32 + acc).min(255);
+            }
+            let _ = r;
+            assert!(b.buf[i] as i32 == exp, "coverage byte = old + acc(sub-row, cells)");
+        }
+        i += 1;
+    }
+    kani::cover!(w == 4 && p2 - p1 == 3 && sub == 3);
+    kani::cover!(w == 3 && p1 == p2 && x2c > x1l);
+    kani::cover!(x2 - ox * 4 > 4 * w);
+}
